@@ -13,8 +13,7 @@ BODIES = {}
 def _gen(name, **kw):
     sys.path.insert(0, os.path.join(env.VERIF, "harness"))
     import gen_c17_sectors as g
-    d = os.path.join(env.VERIF, ".venv", "gen")
-    os.makedirs(d, exist_ok=True)
+    d = env.scratch("gen")
     p = os.path.join(d, name)
     open(p, "w").write(g.generate(**kw))
     return p
